@@ -41,7 +41,7 @@ from ..common import Corr, Violation, clist, cz
 from . import c09
 
 TRANSLATORS = ['hook_order', 'registrars_funs']
-PROP_FILES = ['Props/C11.v']
+PROP_FILES = ['Props/C11.v', 'Props/C11System.v']     # C11System.v: the pipeline end to end (System/Pipeline.v)
 
 TRUSTED_BASE = [
     'correspondence harness harness/props/c11.py (stream generator, driver, encoding of published values: payloads interned)',
@@ -681,6 +681,13 @@ def correspond(ctx) -> Corr:
         work = build_work(ctx, n_gen=1500, n_real=300, real_prefixes=12, n_corrupt=400, n_long=6, long_kills=4)
     ctx.log(f'{len(work)} cases')
     _run(ctx, work, corr)
+    # system level (tie of System/Pipeline.v / Props/C11System.v): the registrars inside a real Nextline, the relay held in a
+    # slow hook while the run ends -- harness/props/c11_system.py
+    from . import c11_system
+    vs, st = c11_system.run(ctx)
+    corr.violations += vs
+    corr.evaluations += st['system_judged']
+    corr.extra.update(st)
     if work:
         k, r, evs, plan, origin = work[len(work) // 3]
         corr.samples.append({'kind': k, 'origin': origin, 'stream': c09._brief(evs), 'plan': _plan_json(plan)})
@@ -691,7 +698,8 @@ def search(ctx, broken) -> list:
     corr = Corr()
     work = build_work(ctx, n_gen=600, n_real=60, real_prefixes=10, n_corrupt=0)
     loop = asyncio.new_event_loop()
-    out = []
+    from . import c11_system
+    out = list(c11_system.run(ctx, 'thorough')[0])
     try:
         for kind, r, evs, plan, origin in work:
             obs = loop.run_until_complete(drive(r, evs, plan))
@@ -715,6 +723,17 @@ def load_corpus():
 
 def replay(ctx, path: Path) -> int:
     j = json.loads(path.read_text())
+    if 'system_scenario' in j:
+        from . import c11_system
+        from .. import life
+        obs = life.run_one(j['system_scenario'])
+        for line in life.brief(obs)[-40:]:
+            print(line)
+        bad = c11_system.oracle(j['system_scenario'], obs)
+        for sig, what in bad:
+            print('FAILS:', sig, '|', what)
+        print('replay verdict:', 'property violated' if bad else 'property holds on this scenario')
+        return 1 if bad else 0
     if 'events' not in j:
         print('nothing to replay in this file (no failing input was recorded)')
         return 1
